@@ -2,7 +2,8 @@
 //
 // Bounded-exhaustive: every valid program up to a token bound over a token alphabet of the value
 // language (validity decided by the parser on the canonical single-blank rendering, candidates
-// enumerated with a pruning table that is itself checked against the unpruned enumeration), plus a
+// enumerated through a recogniser of the token grammar that is itself checked against the unpruned
+// enumeration), plus a
 // fixed list of longer programs, times separator assignments to the gaps between tokens, times
 // comments on/off and comfort mode on/off. Oracle: same AST as the canonical rendering; every node's
 // line (and every syntax error's line) is the line on which the token it records starts, computed by
@@ -17,7 +18,6 @@ import (
 	"strings"
 
 	"github.com/hneemann/parser2"
-	"github.com/hneemann/parser2/funcGen"
 	"github.com/hneemann/parser2/value"
 	"verif/internal/bex"
 )
@@ -389,19 +389,19 @@ type runner struct {
 	n      int64
 }
 
-// Every parse that ends with an error strands the tokenizer goroutine of that parse (about 4 KiB; a
-// defect of the library that is the subject of property C12, not of this check). The spaces are sized
-// so that a run stays far below this number of failing parses per worker; if a changed tree makes
-// (nearly) every parse fail, the worker stops enumerating instead of exhausting the machine's memory
-// and the run reports exhaustive:false.
-const failingParseCap = 600_000
+// On trees without the fix of finding F12a every parse that ends with an error strands the tokenizer
+// goroutine of that parse (about 4 KiB each; subject of property C12, not of this check). The spaces
+// are sized so that a run stays far below this number of stranded goroutines per worker; if a changed
+// tree makes (nearly) every parse fail, the worker stops enumerating instead of exhausting the
+// machine's memory and the run reports exhaustive:false.
+const strandedGoroutineCap = 700_000
 
 // stop reports that enumeration must end at this case boundary.
 func (r *runner) stop() bool {
 	if r.ctx.Expired() {
 		return true
 	}
-	if nFailingParses > failingParseCap {
+	if r.capped || (nFailingParses > strandedGoroutineCap && runtime.NumGoroutine() > strandedGoroutineCap) {
 		r.capped = true
 		return true
 	}
@@ -502,8 +502,10 @@ func (p *progRun) run(lead string, seps []string, trail string) (bool, string, s
 			ctx.Outcome("same AST, right lines: " + ref.nodes[0].kind)
 		}
 		p.r.n++
-		if ctx.WantSample() && p.r.n%4099 == 0 && len(p.toks) >= 4 && hasComment(text) && strings.Contains(text, "\n") {
-			ctx.Sample(map[string]any{"space": p.space, "cfg": p.c.name, "src": text, "canonical": ref.canon, "token_lines": lines})
+		if ctx.WantSample() && p.r.n%4099 < 64 && len(p.toks) >= 4 {
+			if layout := lead + strings.Join(seps, "") + trail; hasComment(layout) && strings.Contains(layout, "\n") {
+				ctx.Sample(map[string]any{"space": p.space, "cfg": p.c.name, "src": text, "canonical": ref.canon, "token_lines": lines})
+			}
 		}
 	}
 	return true, what, exp, got, text
@@ -521,11 +523,59 @@ func (p *progRun) gapTokens(g int) (token, token) {
 	return p.toks[g], p.toks[g+1]
 }
 
+type atomMode int
+
+const (
+	atomsExt  atomMode = iota // extended separator sets
+	atomsCore                 // the core separators named by the property
+	atomsErr                  // error space: separators that move tokens to other lines + one of each sort
+)
+
+type sepSets struct{ inner, lead, trail []string }
+
+func cat(l ...[]string) []string {
+	var out []string
+	for _, x := range l {
+		out = append(out, x...)
+	}
+	return out
+}
+
+var atomSetCache = map[[2]int]sepSets{}
+
+func atomSets(mode atomMode, comments bool) sepSets {
+	k := [2]int{int(mode), map[bool]int{false: 0, true: 1}[comments]}
+	if s, ok := atomSetCache[k]; ok {
+		return s
+	}
+	var s sepSets
+	switch mode {
+	case atomsExt:
+		s = sepSets{cat(sepsPlain, sepsExtPlain), leadPlain, trailPlain}
+		if comments {
+			s = sepSets{cat(sepsPlain, sepsExtPlain, sepsCore[len(sepsPlain):], sepsExtComment), cat(leadPlain, leadComment), cat(trailPlain, trailComment)}
+		}
+	case atomsCore:
+		s = sepSets{sepsPlain, []string{"", "\n"}, []string{"", " ", "\n"}}
+		if comments {
+			s = sepSets{sepsCore, []string{"", "\n", "/*c*/", "//c\n", "/*\n\n*/"}, []string{"", " ", "\n", "//c", "//c\n", " //c", "/*c*/", "/*\n\n*/"}}
+		}
+	case atomsErr:
+		s = sepSets{sepsErrPlain, []string{"\n"}, []string{"", "\n"}}
+		if comments {
+			s = sepSets{sepsErr, []string{"\n", "/*\n\n*/"}, []string{"", "\n", "//c", "/*\n\n*/"}}
+		}
+	}
+	atomSetCache[k] = s
+	return s
+}
+
 // atoms runs every single-gap variant: every base (all call gaps blank / all tight), every gap incl.
 // before the first and after the last token, every admissible separator of the extended sets.
-func (p *progRun) atoms(ext bool) {
+func (p *progRun) atoms(mode atomMode) {
 	n := len(p.toks)
 	ctx := p.r.ctx
+	sets := atomSets(mode, p.c.comments)
 	masks := []uint32{0}
 	if len(p.cg) > 0 {
 		masks = append(masks, 1<<len(p.cg)-1)
@@ -539,38 +589,12 @@ func (p *progRun) atoms(ext bool) {
 			a, b := p.gapTokens(g)
 			var cands []string
 			switch {
-			case g == n && ext:
-				cands = append(cands, leadPlain...)
-				if p.c.comments {
-					cands = append(cands, leadComment...)
-				}
 			case g == n:
-				cands = []string{"\n"}
-				if p.c.comments {
-					cands = append(cands, "/*\n\n*/")
-				}
-			case g == n-1 && ext:
-				cands = append(cands, trailPlain...)
-				if p.c.comments {
-					cands = append(cands, trailComment...)
-				}
+				cands = sets.lead
 			case g == n-1:
-				cands = []string{"", "\n"}
-				if p.c.comments {
-					cands = append(cands, "//c", "/*\n\n*/")
-				}
-			case !ext:
-				cands = sepsErrPlain
-				if p.c.comments {
-					cands = sepsErr
-				}
+				cands = sets.trail
 			default:
-				cands = append(cands, sepsPlain...)
-				cands = append(cands, sepsExtPlain...)
-				if p.c.comments {
-					cands = append(cands, sepsCore[len(sepsPlain):]...)
-					cands = append(cands, sepsExtComment...)
-				}
+				cands = sets.inner
 			}
 			for _, s := range cands {
 				if !admissible(a, s, b, p.c.comments) {
@@ -882,15 +906,14 @@ var fixedComfort = []string{
 
 // ---------------------------------------------------------------------------------------------
 
-func hashToks(toks []token) string { return strings.Join(tokTexts(toks), "\x00") }
-
 type bounds struct {
 	selfcheck        int // enumerator self check over the full alphabet: all sequences up to this length
 	selfcheckReduced int // ... over the reduced alphabet (one token per class the grammar distinguishes)
 	product          int // every assignment of the core separators for programs up to this many tokens
 	productReduced   int // every assignment of the reduced separator set up to this many tokens
 	pairs            int // all pairs of gaps x pairs of core separators up to this many tokens
-	atoms            int // single-gap variants with the extended sets up to this many tokens
+	atoms            int // single-gap variants up to this many tokens
+	atomsExt         int // ... with the extended separator sets up to this many tokens (core sets beyond)
 	errBase          int // error space: all mutations of valid programs up to this many tokens
 	errBaseBad       int // error space: only the invalid character as wrong token up to this many tokens
 	strLen           int
@@ -898,9 +921,9 @@ type bounds struct {
 
 func boundsFor(ctx *bex.Ctx) bounds {
 	if ctx.Quick() {
-		return bounds{selfcheck: 3, selfcheckReduced: 3, product: 3, productReduced: 4, pairs: 4, atoms: 5, errBase: 3, errBaseBad: 3, strLen: 3}
+		return bounds{selfcheck: 3, selfcheckReduced: 3, product: 3, productReduced: 4, pairs: 4, atoms: 5, atomsExt: 4, errBase: 3, errBaseBad: 3, strLen: 3}
 	}
-	return bounds{selfcheck: 3, selfcheckReduced: 4, product: 4, productReduced: 5, pairs: 5, atoms: 5, errBase: 3, errBaseBad: 4, strLen: 4}
+	return bounds{selfcheck: 3, selfcheckReduced: 4, product: 4, productReduced: 5, pairs: 5, atoms: 5, atomsExt: 5, errBase: 3, errBaseBad: 4, strLen: 4}
 }
 
 var productTrails = []string{"", " //c", "/*\n\n*/"}
@@ -1027,7 +1050,11 @@ func runLayout(ctx *bex.Ctx, r *runner) {
 					break
 				}
 				validSeen = true
-				p.atoms(true)
+				mode := atomsExt
+				if len(toks) > b.atomsExt && !isFixed {
+					mode = atomsCore
+				}
+				p.atoms(mode)
 				n := len(toks)
 				set, setRed, trails := sepsPlain, sepsReducedPlain, productTrailsPlain
 				if comments {
@@ -1066,8 +1093,8 @@ func runLayout(ctx *bex.Ctx, r *runner) {
 		}
 	}
 	fixedNote := fmt.Sprintf("+ %d fixed longer programs (+ %d comfort-only)", len(fixedPrograms), len(fixedComfort))
-	r.done("layout-atoms", fmt.Sprintf("every valid program of <= %d tokens over a %d-token alphabet %s x 4 configurations x every gap (also before the first/after the last token) x every admissible separator of the extended sets (%d plain, %d with comments; %d/%d trailing, %d/%d leading), one gap at a time",
-		b.atoms, len(alphabet), fixedNote, len(sepsPlain)+len(sepsExtPlain), len(sepsCore)+len(sepsExtPlain)+len(sepsExtComment), len(trailPlain), len(trailPlain)+len(trailComment), len(leadPlain), len(leadPlain)+len(leadComment)))
+	r.done("layout-atoms", fmt.Sprintf("every valid program of <= %d tokens over a %d-token alphabet %s x 4 configurations x every gap (also before the first/after the last token) x every admissible separator, one gap at a time; programs of <= %d tokens and the fixed ones with the extended sets (%d plain, %d with comments; %d/%d trailing, %d/%d leading), longer ones with the %d core separators",
+		b.atoms, len(alphabet), fixedNote, b.atomsExt, len(sepsPlain)+len(sepsExtPlain), len(sepsCore)+len(sepsExtPlain)+len(sepsExtComment), len(trailPlain), len(trailPlain)+len(trailComment), len(leadPlain), len(leadPlain)+len(leadComment), len(sepsCore)))
 	r.done("layout-product", fmt.Sprintf("every valid program of 2..%d tokens x EVERY assignment of the %d core separators (%d with comments off) to every gap x %d trailing separators; assignments containing a (gap, separator) that already violates alone are not executed (counted)", b.product, len(sepsCore), len(sepsPlain), len(productTrails)))
 	r.done("layout-product-reduced", fmt.Sprintf("every valid program of %d..%d tokens x EVERY assignment of the %d separators %q (%d with comments off) to every gap x %d trailing separators", b.product+1, b.productReduced, len(sepsReduced), sepsReduced, len(sepsReducedPlain), len(productTrails)))
 	r.done("layout-pairs", fmt.Sprintf("every valid program of %d..%d tokens %s x every pair of gaps x every pair of core separators, other gaps single blank", b.product+1, b.pairs, fixedNote))
@@ -1126,9 +1153,7 @@ func runErrors(ctx *bex.Ctx, r *runner) {
 			// append a wrong token. Longer programs: only the invalid character / undefined identifier.
 			wrong := wrongTokens
 			allMuts := li >= nEnum || len(base) <= b.errBase
-			if li >= nEnum {
-				wrong = wrongTokens[:2]
-			} else if !allMuts {
+			if li >= nEnum || !allMuts {
 				wrong = wrongTokens[:1]
 			}
 			type mutation struct {
@@ -1181,12 +1206,12 @@ func runErrors(ctx *bex.Ctx, r *runner) {
 						ctx.Violate("syntax error is not reported on the line of the offending token", p.repro("", seps, "", text),
 							fmt.Sprintf("line %d (the invalid character is token %d)", k+1, k), fmt.Sprintf("%q on the line of token %v", ref.msg, ref.errToks), finding)
 					}
-					p.atoms(false)
+					p.atoms(atomsErr)
 				}
 			}
 		}
 	}
-	r.done("error-lines", fmt.Sprintf("every valid program of <= %d tokens (each token in turn replaced by '#', an undefined identifier, ')' or 'then'; each proper prefix; '#'/undefined identifier appended), of <= %d tokens (each token replaced by '#') and %d fixed programs (each token replaced by '#' or an undefined identifier); kept if the parser rejects it; x 4 configurations x every gap x every admissible separator of %q (%d with comments off), one gap at a time, 2-4 separators before the first and after the last token",
+	r.done("error-lines", fmt.Sprintf("every valid program of <= %d tokens (each token in turn replaced by '#', an undefined identifier, ')' or 'then'; each proper prefix; '#'/undefined identifier appended), of <= %d tokens (each token replaced by '#') and %d fixed programs (each token replaced by '#'; each proper prefix; '#'/undefined identifier appended); kept if the parser rejects it; x 4 configurations x every gap x every admissible separator of %q (%d with comments off), one gap at a time, 2-4 separators before the first and after the last token",
 		b.errBase, b.errBaseBad, len(fixedPrograms), sepsErr, len(sepsErrPlain)))
 }
 
@@ -1258,7 +1283,7 @@ func main() {
 	bex.Main(&bex.Check{
 		ID:    "C15",
 		Level: "exploration",
-		Rule:  "programs are token sequences; every sequence over a 35-token alphabet of the value language (identifiers, quoted identifier, number, string containing a comment opener, 10 keywords, 10 punctuation tokens, 10 operators) up to the tier's length is enumerated (pruning table validated against the unpruned enumeration) and kept if the real parser accepts its single-blank rendering; a fixed list of longer programs adds the remaining token-kind adjacencies. Each is rendered with separators from fixed sets in the gaps (a separator is admissible in a gap iff the check's own reference lexer still reads exactly the two neighbouring tokens), parsed with value.New()'s parser (optimizer removed) under comments on/off x comfort on/off, converted to the check's own tree and compared with the canonical rendering's tree; each node's line must equal the renderer's line of the token that node kind records (token determined from a one-token-per-line parse, validated by kind and subtree order). In comfort mode the blank/no-blank choice between identifier and '(' selects the reference (the documented exception). Erroneous programs (wrong token at known position) must report the same message and the line of the same token. Strings/quoted identifiers: all symbol sequences up to the bound rendered as literals, AST constant and evaluated value compared with the source string. distinct_nontrivial = distinct (configuration, source text) pairs executed in which at least one separator contains a line break or a comment (layout and error spaces), plus the distinct non-empty literals / alias / juxtaposition sources of the text spaces",
+		Rule:  "programs are token sequences; every sequence over a 35-token alphabet of the value language (identifiers, quoted identifier, number, string containing a comment opener, 10 keywords, 10 punctuation tokens, 10 operators) up to the tier's length is enumerated (pruned by a recogniser of the token grammar that is validated against the unpruned enumeration) and kept if the real parser accepts its single-blank rendering; a fixed list of longer programs adds the remaining token-kind adjacencies. Each is rendered with separators from fixed sets in the gaps (a separator is admissible in a gap iff the check's own reference lexer still reads exactly the two neighbouring tokens), parsed with value.New()'s parser (optimizer removed) under comments on/off x comfort on/off, converted to the check's own tree and compared with the canonical rendering's tree; each node's line must equal the renderer's line of the token that node kind records (token determined from a one-token-per-line parse, validated by kind and subtree order). In comfort mode the blank/no-blank choice between identifier and '(' selects the reference (the documented exception). Erroneous programs (wrong token at known position) must report the same message and the line of the same token. Strings/quoted identifiers: all symbol sequences up to the bound rendered as literals, AST constant and evaluated value compared with the source string. distinct_nontrivial = distinct (configuration, source text) pairs executed in which at least one separator contains a line break or a comment (layout and error spaces), plus the distinct non-empty literals / alias / juxtaposition sources of the text spaces",
 		Assumptions: []string{
 			"the check's reference lexer (maximal munch for words, numbers and the operator set of value.New; comments and blanks are separators) defines which separators are admissible in a gap",
 			"which token a node kind records is read off parser2.go (header of cmd/c15/ast.go) and validated per program by kind and subtree order; the line of a multiplication inserted by comfort mode is only required to lie between its operands (the property is silent)",
@@ -1278,11 +1303,9 @@ func main() {
 			runErrors(ctx, r)
 			ctx.Add("failing_parses", nFailingParses)
 			if r.capped {
-				ctx.Add("workers_stopped_at_failing_parse_cap", 1)
+				ctx.Add("workers_stopped_at_stranded_goroutine_cap", 1)
 			}
 		},
 		Replay: replay,
 	})
 }
-
-var _ = funcGen.NewEmptyStack[value.Value]
